@@ -193,17 +193,24 @@ impl SubSocket {
 
         // A failure on one peer's connection must not keep the others from being updated.
         let mut first_error = None;
+        let mut dead_peers = Vec::new();
         while let Some(mut peer) = iter {
             if let Err(e) = peer
                 .send_queue
                 .send(Message::Message(message.clone()))
                 .await
             {
+                dead_peers.push(peer.key().clone());
                 first_error.get_or_insert(e);
             }
             #[cfg(feature = "verif-hooks")]
             crate::verif_hooks::yield_point("sub.process_subs.between_peers").await;
             iter = peer.next_async().await;
+        }
+        // A connection that no longer takes writes is gone: forget the peer as
+        // the other socket types do, instead of failing every later call on it.
+        for peer_id in dead_peers {
+            self.backend.peer_disconnected(&peer_id);
         }
         match first_error {
             Some(e) => Err(e.into()),
